@@ -23,6 +23,7 @@ KINDS = {
     3: "(i) in an anchored file other than the first or a helper, (ii) a boundary change, (iii) an ordering-dependent change, (iv) an alternative entry point / rarely used keyword",
     4: "(i) an interaction of two features, (ii) an error path, (iii) a numeric edge, (iv) state leaking between calls or objects",
     5: "(i) a path reached only through a subclass / sibling class / wrapper, (ii) scale, (iii) type variants of valid inputs, (iv) composition of two public functions",
+    8: "THREE changes, the same kinds as round 7 (library idiom / refactoring slip / small feature addition), on the ten properties round 7 left out",
     7: "THREE changes, one each of: (i) a library idiom that silently does something else (zip truncation, any/all/sum over the wrong container, dict ordering, numpy views, `a or b`), (ii) a refactoring slip (swapped / forgotten argument at one call site, shadowed loop variable, early return), (iii) a small feature addition changing a corner of existing behaviour",
     6: "(i) a default (optional argument / table entry / class default), (ii) precision (rounding, absolute vs relative tolerance), (iii) text or argument spelling, (iv) Python protocols (==, hash, copy, truthiness, iterators, user subclasses, non-dict mappings)",
 }
@@ -85,7 +86,7 @@ for (pid, i), fin in sorted(final.items()):
     by = pid if pid in det else (sorted(det)[0] if det else None)
     meta = dict(
         property=pid, round=rnd,
-        origin="independent sub-agent given only the property text and a scratch worktree of /repo HEAD; asked for " + ("" if rnd == 7 else "four changes, each breaking a different clause: ") + KINDS.get(rnd, KINDS[3]),
+        origin="independent sub-agent given only the property text and a scratch worktree of /repo HEAD; asked for " + ("" if rnd in (7, 8) else "four changes, each breaking a different clause: ") + KINDS.get(rnd, KINDS[3]),
         needs_to_manifest=needs,
         confirmed=dict(how="tools/try_seed.sh (scratch worktree of /repo HEAD): demo exits 0 without and non-zero with the change; tools/baseline_check.py: 510/510 pinned tests still pass with the change",
                        demo_without_change=fin["d0"], demo_with_change=fin["d1"], suite="510 stable_pass tests pass"),
